@@ -32,6 +32,13 @@ A failing comparison carries the structural facts used by the classifier: system
 driving-force method, tolerance class, whether the warmed object's cached two-phase sets are / became degenerate - a phase
 was dropped or both sets share one composition - (cache_lost_phase), size = small (<= 5e-2) / large.
 
+Case kind 'tinyargs' (clause "no call modifies the arrays passed to it" at the edge of the composition range): every query
+kind (also getEq / getLocalEq) of every system is called with compositions that contain 0.0, 1e-14 or 1e-12 (solute-free
+edge, matrix clamped to 0) in every argument form: 0-d / 1-element / (N,) binary arrays, 1-D points, (1,e) rows, 2-D batches
+in C and F order, strided / transposed views (the whole base buffer is compared), full-composition vectors that carry the
+reference element, lists.  Only args_intact is evaluated there; values are not compared (solver resolution ~10 %), calls that
+raise are counted (tiny_call_raised) and their arguments still compared.
+
 Domain ("stable range"), decided at run time, rejects are counted and skipped:
   * phase_not_stable: the phase the query refers to (matrix; diffusion phase) must be present with exactly one
     composition set in the global equilibrium of all listed phases at (x, T) (helper object, never compared);
@@ -79,7 +86,8 @@ RULE = ('random query histories (20-60 public calls: driving force, interfacial 
         'interdiffusivity, tracer diffusivity; temperature jumps +-1..200 K, phase switches, removeCache flags, batches, repeats) on one '
         'long-lived object per system {Al-Zr, Ni-Al-Cr, Fe-Cr-Ni} x driving-force method, each query re-run on a cleared and/or brand-new '
         'object; plus operation histories on the diffusion composition cache (digits 1..8, on/off, near-boundary pairs) directly, through '
-        'SinglePhaseModel with a counting stub and through computeMobility. A history case is non-trivial when it contains >=1 temperature '
+        'SinglePhaseModel with a counting stub and through computeMobility; plus argument-immutability sweeps with zero / sub-resolution '
+        'composition entries in every argument form (non-trivial when >= 20 such calls completed). A history case is non-trivial when it contains >=1 temperature '
         'jump >= 20 K, >=1 repeated point and >=10 compared queries; a cache case when >=1 cache hit and >=1 off-phase were observed; '
         'distinct by case description (system, method, length, case index, seed)')
 REQUIRED_MONITORS = ['warm_vs_fresh', 'cleared_vs_new', 'batch_vs_single', 'repeat_vs_first', 'args_intact', 'no_alias',
@@ -175,6 +183,15 @@ def plan(tier, seed):
     nm = 4 if tier == 'quick' else 16
     for h in range(nm):
         cases.append({'kind': 'mobility', 'h': h, 'weight': 6.0})
+    # argument immutability at compositions with exact zeros / entries below the solver resolution (appended last so that
+    # the indices of the cases above never change)
+    meths = ['tangent', 'sampling'] if tier == 'quick' else ['tangent', 'sampling', 'approximate', 'curvature']
+    reps = 1 if tier == 'quick' else 3
+    for h in range(reps):
+        for s in systems:
+            for meth in meths:
+                cases.append({'kind': 'tinyargs', 'system': s, 'df': meth, 'ic': 'equilibrium', 'h': h,
+                              'weight': {'alzr': 3.0, 'nialcr': 40.0, 'fecrni': 30.0}[s]})
     return cases
 
 
@@ -1098,8 +1115,173 @@ def run_mobility(case, R):
     R.set_nontrivial(hits >= 1 and offs >= 1)
 
 
+# ================================================================================================
+# part 1b: argument immutability at compositions with zero / tiny entries
+
+TINY_VALUES = (0.0, 1e-14, 1e-12)
+
+
+def _tiny_forms(binary, p, others, full):
+    """Argument forms for one composition point p (list of solute fractions, one of them tiny) embedded among the ordinary
+    points `others`.  -> list of (form name, object passed, buffer to compare, is_batch).  `full`: also forms that carry
+    the reference element first."""
+    ne = len(p)
+    out = []
+    if binary:
+        v = p[0]
+        o = [q[0] for q in others]
+        out.append(('b_0d', np.array(v, dtype=np.float64), None, False))
+        out.append(('b_1elem', np.array([v], dtype=np.float64), None, False))
+        out.append(('b_arrayN', np.array([o[0], v, o[1]], dtype=np.float64), None, True))
+        out.append(('b_arrayN_first', np.array([v, o[0]], dtype=np.float64), None, True))
+        big = np.full(7, 0.5, dtype=np.float64)
+        big[::3] = [o[0], v, o[1]]
+        out.append(('b_arrayN_strided_view', big[::3], big, True))
+        col = np.array([[o[0]], [v], [o[1]]], dtype=np.float64)
+        out.append(('b_column_C', col.copy(order='C'), None, True))
+        out.append(('b_column_F', np.asfortranarray(col), None, True))
+        out.append(('b_list', [o[0], v], None, True))
+        if full:
+            out.append(('b_full_composition', np.array([1.0 - v, v], dtype=np.float64), None, False))
+        return out
+    rows = [list(others[0]), list(p), list(others[1])]
+    out.append(('m_1d', np.array(p, dtype=np.float64), None, False))
+    out.append(('m_row_2d', np.array([p], dtype=np.float64), None, False))
+    big = np.full(2 * ne + 1, 0.5, dtype=np.float64)
+    big[::2][:ne] = p
+    out.append(('m_1d_strided_view', big[::2][:ne], big, False))
+    out.append(('m_list', list(p), None, False))
+    out.append(('m_full_composition', np.array([1.0 - sum(p)] + list(p), dtype=np.float64), None, False))
+    bigf = np.full(2 * (ne + 1), 0.5, dtype=np.float64)
+    bigf[::2] = [1.0 - sum(p)] + list(p)
+    out.append(('m_full_composition_strided_view', bigf[::2], bigf, False))
+    out.append(('m_2d_C', np.array(rows, dtype=np.float64, order='C'), None, True))
+    out.append(('m_2d_F', np.asfortranarray(np.array(rows, dtype=np.float64)), None, True))
+    big2 = np.full((3, 2 * ne), 0.5, dtype=np.float64)
+    big2[:, ::2] = rows
+    out.append(('m_2d_column_strided_view', big2[:, ::2], big2, True))
+    big3 = np.full((6, ne), 0.5, dtype=np.float64)
+    big3[::2] = rows
+    out.append(('m_2d_row_strided_view', big3[::2], big3, True))
+    out.append(('m_2d_transposed_view', np.array(rows, dtype=np.float64).T.copy().T, None, True))
+    out.append(('m_2d_full_composition', np.array([[1.0 - sum(r)] + r for r in rows], dtype=np.float64), None, True))
+    out.append(('m_2d_list', [list(r) for r in rows], None, True))
+    return out
+
+
+def run_tinyargs(case, R):
+    """Every query kind of the system is called with compositions that contain 0.0 / 1e-14 / 1e-12 in every argument form;
+    only the arguments are examined (bitwise before/after, including the whole base buffer of a view).  Returned values are
+    not compared: the solver resolves such points to ~10 % only."""
+    from vlib import core
+    rng = core.case_rng(case['seed'], PROPERTY, case['idx'])
+    S = SYSTEMS[case['system']]
+    binary = S['binary']
+    sysn = case['system']
+    obj = _build(case)
+    ne = len(S['xlo'])
+    T0 = float(np.round(rng.uniform(*S['T'])))
+    kinds = ['df', 'interdiff', 'tracer', 'getEq', 'getLocalEq'] + ([] if binary else ['ic', 'curv', 'growth', 'imp'])
+    single_only = ('ic', 'curv', 'growth', 'imp', 'getEq', 'getLocalEq')
+    ncalls = nok = 0
+    for kind in kinds:
+        for pos in range(ne):
+            for tiny in TINY_VALUES:
+                p = _rand_x(rng, S)
+                p[pos] = tiny
+                if ne > 1 and rng.random() < 0.25:
+                    p = [tiny] * ne if rng.random() < 0.5 else p      # every solute absent
+                others = [_rand_x(rng, S), _rand_x(rng, S)]
+                for form, xobj, base, is_batch in _tiny_forms(binary, p, others, full=(kind in ('getEq', 'getLocalEq') or not binary)):
+                    if is_batch and kind in single_only:
+                        continue
+                    if kind in ('getEq', 'getLocalEq') and (form in ('b_0d',) or (isinstance(xobj, np.ndarray) and xobj.ndim > 1)):
+                        continue
+                    npts = 1
+                    if is_batch:
+                        npts = len(xobj)
+                    Tform = str(rng.choice(['float', 'arr'])) if is_batch else str(rng.choice(['float', 'npfloat', 'arr1']))
+                    if Tform == 'float':
+                        Tobj = T0
+                    elif Tform == 'npfloat':
+                        Tobj = np.float64(T0)
+                    elif Tform == 'arr1':
+                        Tobj = np.array([T0], dtype=np.float64)
+                    else:
+                        Tobj = np.full(npts, T0, dtype=np.float64)
+                    if kind in ('getEq', 'getLocalEq'):
+                        Tobj = T0
+                    prec = S['prec'][int(rng.integers(len(S['prec'])))]
+                    rc = bool(rng.random() < 0.5)
+                    tracked = {'x': (xobj, base if base is not None else xobj)}
+                    if isinstance(Tobj, np.ndarray):
+                        tracked['T'] = (Tobj, Tobj)
+                    if kind == 'df':
+                        fn, args, kw = obj.getDrivingForce, [xobj, Tobj], {'precPhase': prec, 'removeCache': rc}
+                    elif kind == 'interdiff':
+                        fn, args, kw = obj.getInterdiffusivity, [xobj, Tobj], {'removeCache': rc}
+                    elif kind == 'tracer':
+                        fn, args, kw = obj.getTracerDiffusivity, [xobj, Tobj], {'removeCache': rc}
+                    elif kind == 'getEq':
+                        fn, args, kw = obj.getEq, [xobj, Tobj, 0, prec], {}
+                    elif kind == 'getLocalEq':
+                        fn, args, kw = obj.getLocalEq, [xobj, Tobj, 0, -1 if rng.random() < 0.5 else prec], {}
+                    elif kind == 'ic':
+                        g = np.array([0.0, 200.0], dtype=np.float64) if rng.random() < 0.5 else 100.0
+                        if isinstance(g, np.ndarray):
+                            tracked['gExtra'] = (g, g)
+                        fn, args, kw = obj.getInterfacialComposition, [xobj, T0, g], {'precPhase': prec}
+                    else:
+                        kw = {'precPhase': prec, 'removeCache': rc}
+                        pname = prec if prec is not None else S['phases'][1]
+                        if rng.random() < 0.5 and pname in S['sdir']:
+                            sd = np.array(S['sdir'][pname], dtype=np.float64)
+                            kw['searchDir'] = sd
+                            tracked['searchDir'] = (sd, sd)
+                        if kind == 'curv':
+                            fn, args = obj.curvatureFactor, [xobj, Tobj]
+                        elif kind == 'imp':
+                            fn, args = obj.impingementFactor, [xobj, Tobj]
+                        else:
+                            Rr = np.array([1e-9, 5e-9], dtype=np.float64)
+                            gg = np.array([400.0, 80.0], dtype=np.float64)
+                            tracked['R'] = (Rr, Rr)
+                            tracked['gExtra'] = (gg, gg)
+                            fn, args = obj.getGrowthAndInterfacialComposition, [xobj, Tobj, 500.0, Rr, gg]
+                    snap = {}
+                    for n, (ob, buf) in tracked.items():
+                        if isinstance(buf, np.ndarray):
+                            snap[n] = (buf.tobytes(order='A'), buf.copy(), buf.shape, buf.strides)
+                        else:
+                            snap[n] = (repr(buf), None, None, None)
+                    raised = None
+                    try:
+                        fn(*args, **kw)
+                        nok += 1
+                    except Exception as e:     # values at such points are not the subject; the arguments still are
+                        raised = type(e).__name__
+                        R.observe('tiny_call_raised')
+                    ncalls += 1
+                    R.observe('tiny_calls')
+                    for n, (ob, buf) in tracked.items():
+                        if isinstance(buf, np.ndarray):
+                            ok = buf.tobytes(order='A') == snap[n][0] and buf.shape == snap[n][2] and buf.strides == snap[n][3]
+                            after = buf
+                        else:
+                            ok = repr(buf) == snap[n][0]
+                            after = repr(buf)
+                        R.check('args_intact', ok, {'system': sysn, 'query': kind, 'arg': n, 'workload': 'tiny_entries',
+                                                    'form': form if n == 'x' else None},
+                                before=snap[n][1] if snap[n][1] is not None else snap[n][0], after=after, tiny=tiny, position=pos,
+                                T=T0, raised=raised, df_method=case['df'])
+    R.info.update({'calls': ncalls, 'completed': nok, 'system': sysn, 'df': case['df'], 'T': T0})
+    R.set_nontrivial(nok >= 20)
+
+
 def run_case(case, R):
     kind = case['kind']
+    if kind == 'tinyargs':
+        return run_tinyargs(case, R)
     if kind == 'history':
         return run_history(case, R)
     if kind == 'hashtable':
